@@ -13,7 +13,7 @@ CHECK = dict(
                 "510..515 (thorough 2046..2050, 8190..8194) with varying offsets. 2-D: BVHBuildFromBoxes + BVHCollisions/CollidePairs for all "
                 "tuples of lattice rectangles; CollectIntersectionPairs through both broad phases (x-sorted sweep, BVH) for all small lattice "
                 "segment sets and for eight structural families of 1022..1026 edges (both sides of kEdgePairBvhThreshold), plus the gate "
-                "inside RemoveOverlaps2D; QueryTwoDTree for all multisets of <= 12 and of 18 points of the 3x3 lattice (both sides of the "
+                "inside RemoveOverlaps2D; QueryTwoDTree for all multisets of <= 12 and of 19 points of the 3x3 lattice (both sides of the "
                 "`<= 8` leaf rule at the first and second level) and all >= 9-point subsets of the 4x4 lattice x all lattice rectangles."),
     level_note=("Trusted: compiler, the 6-comparison integer overlap model (itself cross-checked against Box::DoesOverlap on all 216x216 "
                 "lattice box pairs in phase box-model). Bound: the lattices and counts above; sequential build (MANIFOLD_PAR=-1), so the "
@@ -32,7 +32,7 @@ CHECK = dict(
         quick=("col-n2 36^2 boxes x 15 code seqs x 3 planes (+58 maps in the xy plane); col-n3 36^3 x 35 (xy plane); col-n3-xform 9^3 boxes x 4 seqs "
                "x 58 maps; col-n4 6^4 x 70 x 3 axes; col-n5 6^5 x 126 (x axis); col-n4-xform 3^4 x 5 x 58; col-morton 27^n, n<=4; radix-shape "
                "length <= 16 over 5 symbols; runs 126..131, 510..515; bvh2d 36^2, 36^3, 9^4, 9^5; pairs 72^2, 72^3, 12^4 x {private,shared verts} "
-               "x eps {0,1/4}; gate n in 1022..1026 x 8 families; kd2d multisets of size 0..12 (3 input orders) and 18 (1 order)"),
+               "x eps {0,1/4}; gate n in 1022..1026 x 8 families; kd2d multisets of size 0..12 (3 input orders) and 19 (1 order; 9+9 split: second level on both sides)"),
         thorough=("all three planes for n=3; maps also for n=2 in every plane and n=5; n=6; SYM5 sequences under Transform; full query set for "
                   "n=4,5; radix length <= 20 over 6 symbols; runs up to 8194; bvh2d 9^6; pairs 12^5; gate sizes 511..4100; kd2d all sizes 0..21 "
                   "x 3 orders")),
